@@ -599,7 +599,41 @@ static void judge_literal(const std::string &S)
 {
     Lit L = match_literal(S.c_str());
     if (!L.mant_digits)
-        return; // not a decimal literal: behaviour not fixed by the statement
+    {
+        // not a decimal literal: value and stop position are not fixed by the statement, but the out-parameter must not
+        // be left stale: *end has to be written and must point into the text
+        vf::ExactStr in0(S);
+        char key0[128];
+        static char elsewhere[16];
+        for (int en = 0; en < N_ENTRY; en++)
+        {
+            if (en == E_ATOF_COMPAT)
+                continue;
+            vf::cls(ENAME[en]);
+            char *poison = (S.size() + en) & 1 ? (char *)1 : elsewhere + 7, *end = poison;
+            if (vf::verbose())
+                printf("  %s(\"%s\") [no mantissa digit]\n", ENAME[en], vf::esc(S.data(), S.size()).c_str());
+            switch (en)
+            {
+            case E_ATOF32: (void)igris_atof32(in0.cc(), &end); break;
+            case E_ATOF64: (void)igris_atof64(in0.cc(), &end); break;
+            case E_STRTOD_IGRIS: (void)igris_strtod(in0.cc(), &end); break;
+            default: (void)igc_strtod(in0.cc(), &end); break;
+            }
+            if (end == poison)
+            {
+                snprintf(key0, sizeof key0, "parse:%s:end-not-set:no-digits", ENAME[en]);
+                vf::fail(key0, "text=\"%s\" *end was not written", vf::esc(S.data(), S.size()).c_str());
+            }
+            if (end < in0.cc() || end > in0.cc() + S.size())
+            {
+                snprintf(key0, sizeof key0, "parse:%s:end-outside-text:no-digits", ENAME[en]);
+                vf::fail(key0, "text=\"%s\" *end = text%+ld", vf::esc(S.data(), S.size()).c_str(), (long)(end - in0.cc()));
+            }
+        }
+        VF_OK("parse: text without a mantissa digit: *end written and inside the text");
+        return;
+    }
     // reference: glibc strtod on exactly the grammar prefix (so hex floats / inf / nan spellings cannot interfere)
     std::string prefix = S.substr(0, L.len);
     char *e = nullptr;
@@ -618,7 +652,7 @@ static void judge_literal(const std::string &S)
     for (int en = 0; en < N_ENTRY; en++)
     {
         vf::cls(ENAME[en]);
-        char *end = (char *)-1;
+        char *end = (char *)-1; // poisoned before every call
         double got;
         switch (en)
         {
@@ -819,6 +853,7 @@ extern "C" void vf_setup()
                           "parse: *end at the end of the longest grammar prefix, four entry points", "parse: literal with a negative exponent",
                           "parse: literal with a positive exponent", "parse: literal with a fraction", "parse: negative literal",
                           "parse: dangling e/E after the literal is not consumed",
+                          "parse: text without a mantissa digit: *end written and inside the text",
                           "round trip: igris_f32toa text is read back by every parser like glibc reads it"})
         vf::require(c);
 }
